@@ -39,6 +39,7 @@ from fractions import Fraction
 import numpy as np
 
 import common
+import rmodel
 from common import f2h, h2f, hexs
 from translate import tables
 from translate.pyexpr import Untranslatable
@@ -120,6 +121,72 @@ def translate(ctx):
         regions += [r for r in kregions if "mass_from_energy_momentum" in str(r.get("region", "")) or "p_abs" in str(r.get("region", ""))]
     except Exception as e:  # C08's translator decides for its own check; here the golden/last text stays
         ctx.notes.append(f"Gen/Kinematics.lean not refreshed ({type(e).__name__}: {e})")
+    regions += translate_loops(ctx)
+    return regions
+
+
+GEN_LOOP = common.LEAN / "SparkxVerif/Gen/ReaderLoop.lean"
+GOLDEN_LOOP = common.LEAN / "golden/Gen/ReaderLoop.lean"
+GEN_SCAN = common.LEAN / "SparkxVerif/Gen/ReaderScan.lean"
+GOLDEN_SCAN = common.LEAN / "golden/Gen/ReaderScan.lean"
+GEN_SEL = common.LEAN / "SparkxVerif/Gen/ReaderSelGen.lean"
+GOLDEN_SEL = common.LEAN / "golden/Gen/ReaderSelGen.lean"
+
+
+def translate_loops(ctx):
+    """tie T for the line loops: `set_particle_list` of both loaders (loop body, start state, final check) and
+    `OscarLoader.set_num_events` -> Gen/ReaderLoop.lean (translate/readerloop.py); the selection arithmetic the all-generated
+    readers use is C02's Gen/ReaderSelGen.lean, refreshed from the same tree.  A part that cannot be re-derived falls back to its
+    golden text (tie = correspondence only for that part: the `gread` comparison of correspond() and the reader correspondence
+    of C01/C02/C05/C06/C07 carry it); nothing here can make the check fail to build."""
+    regions = []
+    if not GOLDEN_LOOP.exists():
+        return regions
+    try:
+        from translate import readerloop
+        text, lregions = readerloop.render_all(common.read_src(readerloop.SRC_OSCAR), common.read_src(readerloop.SRC_JETSCAPE))
+        if common.write_if_changed(GEN_LOOP, text):
+            ctx.notes.append("Gen/ReaderLoop.lean regenerated (source differs from last run)")
+        ctx.cov["readerloop_equals_golden"] = GOLDEN_LOOP.read_text() == text
+        ctx.cov["tie_loops"] = ("T + C: the line loops of OscarLoader / JetscapeLoader.set_particle_list (classification chain, finish-the-"
+                                "event blocks with constructor filters and num_output_per_event_ bookkeeping, particle lines, start state, "
+                                "event-count check) and set_num_events are regenerated from the source and proved equal to the shared "
+                                "reader model (genReadOscarAll_eq, genReadJetscapeAll_eq)")
+        regions += lregions
+    except Exception as e:
+        common.write_if_changed(GEN_LOOP, GOLDEN_LOOP.read_text())
+        ctx.cov["tie_loops"] = "correspondence-only (loop translator could not re-derive: %s: %s)" % (type(e).__name__, str(e)[:300])
+        ctx.notes.append("line loops: translator could not parse the source (%s: %s); golden Gen/ReaderLoop.lean + correspondence"
+                         % (type(e).__name__, str(e)[:200]))
+        ctx.loop_fallback = True
+        regions.append(dict(file="loader/OscarLoader.py", region="set_particle_list (line loop)", parsed=False,
+                            sha=common.region_hash(common.read_src("loader/OscarLoader.py") + common.read_src("loader/JetscapeLoader.py"))))
+    if GOLDEN_SCAN.exists():
+        try:
+            from translate import readerloop
+            stext, sregions = readerloop.render_scan(common.read_src(readerloop.SRC_OSCAR), common.read_src(readerloop.SRC_JETSCAPE))
+            if common.write_if_changed(GEN_SCAN, stext):
+                ctx.notes.append("Gen/ReaderScan.lean regenerated (source differs from last run)")
+            ctx.cov["readerscan_equals_golden"] = GOLDEN_SCAN.read_text() == stext
+            ctx.cov["tie_scanners"] = ("T + C: the scanning loops of set_num_output_per_event_and_event_footers / set_num_output_per_event "
+                                       "are regenerated and proved ok-equivalent to the model's (genOscarScan_okEq, genJetscapeScan_okEq)")
+            regions += sregions
+        except Exception as e:
+            common.write_if_changed(GEN_SCAN, GOLDEN_SCAN.read_text())
+            ctx.cov["tie_scanners"] = "correspondence-only (scanner translator could not re-derive: %s: %s)" % (type(e).__name__, str(e)[:300])
+            ctx.notes.append("first-pass scanners: translator could not parse the source (%s: %s); golden Gen/ReaderScan.lean + "
+                             "correspondence" % (type(e).__name__, str(e)[:200]))
+            ctx.loop_fallback = True
+            regions.append(dict(file="loader/OscarLoader.py", region="set_num_output_per_event* (scanning loops)", parsed=False,
+                                sha=common.region_hash(common.read_src("loader/OscarLoader.py") + common.read_src("loader/JetscapeLoader.py"))))
+    if GOLDEN_SEL.exists():
+        try:
+            from translate import readersel
+            gtext, _, _ = readersel.render_all(common.read_src(readersel.SRC_OSCAR), common.read_src(readersel.SRC_JETSCAPE))
+            common.write_if_changed(GEN_SEL, gtext)
+        except Exception as e:   # C02's translator decides for its own check
+            common.write_if_changed(GEN_SEL, GOLDEN_SEL.read_text())
+            ctx.notes.append(f"Gen/ReaderSelGen.lean: golden text used ({type(e).__name__}: {str(e)[:160]})")
     return regions
 
 
@@ -1029,6 +1096,15 @@ def corr_spec(ctx, spec, origin, text_real=None, slot=None, dev=None):
         if real != F["read"]:
             ctx.brk("correspondence-broken", f"{origin}: code `{real[:300]}` vs model `{F['read'][:300]}`", case=case)
             return
+        if "gread" in F:
+            ctx.count("gread/wellformed")
+            if real != F["gread"]:
+                ctx.brk("correspondence-broken", f"{origin}: code `{real[:300]}` vs the reader built from the GENERATED loop parts "
+                        f"(Gen/ReaderLoop.lean) `{F['gread'][:300]}`", case=case)
+                return
+            if F.get("tl", "1") != "1":
+                ctx.brk("correspondence-broken", f"{origin}: a line follows the trailer line in a generated JETSCAPE file "
+                        "(hypothesis trailerLastB of genReadJetscapeAll_eq is false)", case=case)
         if kind == "oscar":
             got = obj.impact_parameters()
             want = F["imp"]
@@ -1239,6 +1315,159 @@ def ascii_headers(ctx, rng):
     return rng.sample(singles, 8) + rng.sample(pairs, 16)
 
 
+# --------------------------------------------------------------------------------- generated line loops (tie C on tie T)
+LOOP_CALLS = [None, None, None, [], [("charged_particles", ())], [("uncharged_particles", ())], [("multiplicity_cut", ((3, None),))],
+              [("multiplicity_cut", ((100, None),))], [("particle_species", ((211, -211, 2212),))], [("remove_photons", ())],
+              [("charged_particles", ()), ("multiplicity_cut", ((2, None),))]]
+
+
+def loop_damage(rng, spec, lines):
+    """line-level damage of a rendered file (or none): what the loop's tests and its bookkeeping have to decide about"""
+    kind = rng.choice(["none", "none", "none", "delete", "duplicate", "swap", "truncate", "word", "trailer", "blank"])
+    L = list(lines)
+    n = len(L)
+    if kind == "none" or n < 3:
+        return "none", L
+    i = rng.randrange(1, n)
+    if kind == "delete":
+        del L[i]
+    elif kind == "duplicate":
+        L.insert(i, L[i])
+    elif kind == "swap":
+        j = rng.randrange(1, n)
+        L[i], L[j] = L[j], L[i]
+    elif kind == "truncate":
+        L = L[:max(2, i)]
+    elif kind == "word":
+        # a keyword of a comment line changed: the line is classified differently
+        cands = [k for k, l in enumerate(L) if l.startswith("#") and k > 0]
+        if cands:
+            k = rng.choice(cands)
+            for a, b in rng.sample([("end", "eNd"), ("out", "oUt"), ("event", "evnt"), ("Event", "event"), ("weight", "wght"),
+                                    ("sigmaGen", "sigmagen"), ("#", "")], 7):
+                if a in L[k]:
+                    L[k] = L[k].replace(a, b, 1)
+                    break
+    elif kind == "trailer":
+        # a second trailer / footer in the middle of the file
+        if spec.is_jetscape():
+            L.insert(i, L[-1])
+        else:
+            foot = [l for l in L if " end " in l]
+            if foot:
+                L.insert(i, rng.choice(foot))
+    elif kind == "blank":
+        L.insert(i, "")
+    return kind, L
+
+
+def loop_keys(ans, lines):
+    """`ev=<line numbers>` of a driver answer -> first-column keys of those lines (comparable with the real particles)"""
+    if not ans.startswith("ok ") or " ev=" not in ans:
+        return ans
+    head, ev = ans.split(" ev=", 1)
+    ev = ev.split(" ")[0]
+
+    def key(t):
+        try:
+            return repr(float(lines[int(t)].replace("\t", " ").split(" ")[0]))
+        except Exception:
+            return "?" + t
+    return head + " ev=" + "|".join("." if e == "." else ",".join(key(t) for t in e.split(",")) for e in ev.split("|"))
+
+
+def loop_real(spec, text, sel, filt):
+    kw = {}
+    if sel is not None:
+        kw["events"] = sel
+    if filt is not None:
+        kw["filters"] = filt
+    ctor, path = rmodel.open_real(spec, text, **kw)
+    try:
+        try:
+            with np.errstate(all="ignore"):
+                obj = ctor()
+        except Exception as e:
+            return rmodel.classify(e)
+        evs = obj.particle_objects_list()
+        ev_s = "|".join("." if not ev else ",".join(repr(float(rmodel.first_col_key(spec, p))) for p in ev) for ev in evs)
+        fmt = obj.oscar_format() if not spec.is_jetscape() else "-"
+        attrs = ",".join(obj.custom_attr_list) if not spec.is_jetscape() else ""
+        foot = len(obj.event_end_lines_) if not spec.is_jetscape() else 0
+        return (f"ok ne={obj.num_events()} counts={rmodel.counts_repr(obj.num_output_per_event())} fmt={fmt} attrs={attrs} "
+                f"foot={foot} ev={ev_s}")
+    finally:
+        os.unlink(path)
+
+
+def corr_genloop(ctx, rng, i):
+    """one file (possibly damaged), one selector, maybe constructor filters: the real loader vs the readers assembled from the
+    GENERATED loop parts (driver op `gread`)"""
+    spec = rmodel.gen_spec(rng, maxpart=4)
+    n = len(spec.events)
+    r = rng.random()
+    if r < 0.45:
+        sel = None
+    elif r < 0.7:
+        sel = rng.randrange(0, n + 1)
+    else:
+        a = rng.randrange(0, n + 1)
+        sel = (a, rng.randrange(max(0, a - 1), n + 1))
+    calls = rng.choice(LOOP_CALLS)
+    dmg, lines = loop_damage(rng, spec, spec.lines())
+    text = "\n".join(lines) + ("\n" if spec.trailing_nl else "")
+    kind = "oscar" if not spec.is_jetscape() else spec.kind
+    if calls is not None and (dmg != "none" or (calls and spec.kind == "ascii")):
+        # the filter views are keyed by the line numbers of the undamaged file; ASCII files may lack the filtered quantity
+        calls = None
+    try:
+        views = rmodel.views_enc(spec) if calls is not None else "-"
+        fenc = rmodel.filters_enc(calls)
+    except Exception:
+        calls, views, fenc = None, "-", "-"
+    filt = None if calls is None else rmodel.filters_dict(calls)
+    line = "\t".join(["gread", kind, rmodel.sel_enc(sel), fenc, views, hexs(text)])
+
+    def compare(ans):
+        case = dict(origin=f"genloop#{i}", kind=spec.kind, damage=dmg, events=repr(sel), filters=repr(filt), text=text[:1500])
+        if not (ans.startswith("ok ") or ans.startswith("err ")):
+            ctx.brk("correspondence-broken", f"genloop#{i}: driver answered {ans[:80]!r}", case=case)
+            return
+        body, tl, same = ans.rsplit(" tl=", 1)[0], ans.rsplit(" tl=", 1)[1][0], ans.rsplit(" same=", 1)[1]
+        try:
+            real = loop_real(spec, text, sel, filt if filt is not None else None)
+        except Exception as e:
+            ctx.count("genloop/real-harness-error")
+            return
+        gen = loop_keys(body, lines)
+        ctx.count(f"genloop/{'jetscape' if spec.is_jetscape() else 'oscar'}/{dmg}/" +
+                  ("all" if sel is None else "one" if not isinstance(sel, tuple) else "range") +
+                  ("/filters" if filt else "") + ("/err" if not real.startswith("ok") else ""))
+        ctx.case(("genloop", spec.kind, dmg, repr(sel), repr(filt), text), dmg != "none" or sel is not None or bool(filt),
+                 sample=dict(origin=f"genloop#{i}", damage=dmg, events=repr(sel), code=real, generated=gen))
+        if real.startswith("err other") or real.startswith("err key") or real.startswith("err notfound"):
+            ctx.count("genloop/real-raises-outside-the-model-kinds")
+            return
+        if tl != "1":
+            # a line follows a `# sigmaGen` line: outside the hypothesis of genReadJetscapeAll_eq.  After the trailer the source
+            # neither resets `data` nor copies it, so the list stored in particle_list keeps growing with it (aliasing); the
+            # generated definitions use values.  Counted, not compared.
+            ctx.count("genloop/line-after-trailer" + ("/model-differs" if same != "1" else "") + ("/code-differs" if real != gen else ""))
+            if spec.is_jetscape():
+                return
+        if real == gen:
+            return
+        if dmg != "none" and same == "1":
+            # the hand-written reader says the same as the generated one: a gap of the shared model on damaged files
+            # (first-pass scanners / format sniffing / Particle view), not of the loop translation; C07 owns damaged files
+            ctx.count("genloop/shared-model-differs-on-damaged-file")
+            return
+        ctx.brk("correspondence-broken", f"genloop#{i} ({spec.kind}, damage={dmg}, events={sel}, filters={filt}): code `{real[:300]}` vs "
+                f"the reader built from the GENERATED loop parts `{gen[:300]}` (hand-written reader agrees with generated: {same})",
+                case=case)
+    return line, compare
+
+
 def correspond(ctx):
     rng = ctx.rng
     ctx.rule = ("random well-formed files (1-6 events mostly, 9-12 / 33 / 100+ events regularly, 1000+ in the thorough tier; every number in "
@@ -1291,6 +1520,9 @@ def correspond(ctx):
         jobs += corr_derived(ctx, rng)
     for i in range(ctx.n(100, 1500)):
         jobs.append(corr_fmtchain(ctx, rng))
+    if GOLDEN_LOOP.exists():
+        for i in range(ctx.n(150, 1500) if not getattr(ctx, "loop_fallback", False) else 1500):
+            jobs.append(corr_genloop(ctx, rng, i))
     outs = common.run_driver("C01", [l for l, _ in jobs])
     for (l, cmp_), out in zip(jobs, outs):
         cmp_(out)
